@@ -15,12 +15,12 @@ import tsanlog
 SO, USER = b'so-pin-18', b'user-pin-18'
 WORKLOADS = ['session-objects', 'token-writers', 'session-churn', 'login-churn', 'crypto']
 
-def setup(paths, ck, cfg, d, locking, seed):
+def setup(paths, ck, cfg, d, locking, seed, yield_p=0.2, yield_us=120):
     mkconf(d, 'file'); env = dict(SAN_ENV)
     env['TSAN_OPTIONS'] = f'halt_on_error=0:report_signal_unsafe=0:history_size=5:second_deadlock_stack=1:log_path={d}/tsan.log'
     x = Exec(paths[cfg]['exe'], paths[cfg]['lib'], os.path.join(d, 'softhsm2.conf'), ck, env=env, stderr=f'{d}/stderr.log'); x.timeout = 300
     init = dict(locking=locking)
-    if locking == 'cb': init['yield'] = {'seed': seed, 'p': 0.2, 'maxus': 120}
+    if locking == 'cb': init['yield'] = {'seed': seed, 'p': yield_p, 'maxus': yield_us}
     assert x.call('C_Initialize', **init)['rv'] == 0
     slot = x.call('C_GetSlotList', count=8)['slots'][-1]
     assert x.call('C_InitToken', slot=slot, pin=SO.hex(), label=b'tok18'.hex())['rv'] == 0
@@ -152,7 +152,7 @@ def stress_job(job):
         viol.append((k, what, detail))
     x = None
     try:
-        x, slot, s0 = setup(job['paths'], ck, cfg, d, job['locking'], seed)
+        x, slot, s0 = setup(job['paths'], ck, cfg, d, job['locking'], seed, yield_p=job.get('yield_p', 0.2), yield_us=job.get('yield_us', 120))
         scripts = []; exps = []
         for t in range(nth): S, E = gen_script(ck, x, slot, t, rnd, job['iters'], wl); scripts.append(S); exps.append(E)
         t0 = time.time()
@@ -209,7 +209,9 @@ def lin_step(state, op, res):
     if k == 'open': return [(login, sess | {op[1]}, objs)] if ok else []
     if k == 'close':
         if not ok: return []
-        return [(login, sess - {op[1]}, frozenset(o for o in objs if o[2] != op[1]))]
+        rest = sess - {op[1]}
+        if not rest: return [(None, rest, frozenset())]      # closing the last session of the token logs it out; no session object can remain
+        return [(login, rest, frozenset(o for o in objs if o[2] != op[1]))]
     if k == 'login':
         if login is None: return [('U', sess, objs)] if ok else []
         return [] if ok else [state]
@@ -243,7 +245,8 @@ def lin_free(state, op):
     elif k == 'login': out.append(('U', sess, objs))
     elif k == 'logout': out.append((None, sess, frozenset(o for o in objs if not o[1])))
     elif k == 'open': out.append((login, sess | {op[1]}, objs))
-    elif k == 'close': out.append((login, sess - {op[1]}, frozenset(o for o in objs if o[2] != op[1])))
+    elif k == 'close':
+        rest = sess - {op[1]}; out.append((None, rest, frozenset()) if not rest else (login, rest, frozenset(o for o in objs if o[2] != op[1])))
     return out
 
 def culprit(history, init, ck):
@@ -286,19 +289,35 @@ def lin_job(job):
     ck = CK(job['hdr']); part = Part(); seed = job['seed']; rnd = random.Random(seed); nth = job['threads']; d = os.path.join(job['scratch'], f'lin-{seed}'); shutil.rmtree(d, ignore_errors=True); os.makedirs(d)
     x = None
     try:
-        x, slot, s0 = setup(job['paths'], ck, 'asan', d, job['locking'], seed)
+        x, slot, s0 = setup(job['paths'], ck, 'asan', d, job['locking'], seed, yield_p=job.get('yield_p', 0.2), yield_us=job.get('yield_us', 120))
         for hno in range(job['histories']):
             # every thread: its own session; ops on session objects with a few SHARED labels so that threads interact
             labels = [b'L%d-%d' % (hno, i) for i in range(3)]; scripts = []; metas = []
+            free = job.get('variant') in ('free', 'handoff')
             for t in range(nth):
-                S = [{'fn': 'C_OpenSession', 'slot': slot}]; M = [('open', f'{hno}:{t}')]; sref = '$0.h'; mine = {}
-                for _ in range(rnd.randrange(4, 8)):
+              S = []; M = []
+              if job.get('variant') == 'handoff':
+                # directed: every thread repeatedly opens a session, logs in, looks at its state, creates a private object and closes again; the token has no
+                # other session, so "closing the last session logs the token out" races with the next thread's open + login
+                for sk in range(3):
+                    sid = f'{hno}:{t}:{sk}'; S.append({'fn': 'C_OpenSession', 'slot': slot}); M.append(('open', sid)); sref = '$%d.h' % (len(S) - 1)
+                    S.append({'fn': 'C_Login', 's': sref, 'user': 1, 'pin': USER.hex()}); M.append(('login',))
+                    S.append({'fn': 'C_GetSessionInfo', 's': sref}); M.append(('info',))
+                    if rnd.random() < 0.5:
+                        lab = b'H%d-%d-%d' % (hno, t, sk); S.append({'fn': 'C_CreateObject', 's': sref, 'tmpl': x.T({'CKA_CLASS': ck.CKO_DATA, 'CKA_TOKEN': False, 'CKA_PRIVATE': True, 'CKA_LABEL': lab, 'CKA_VALUE': b'x'})}); M.append(('create', lab, True, sid))
+                    S.append({'fn': 'C_CloseSession', 's': sref}); M.append(('close', sid))
+                    for _ in range(rnd.randrange(0, 4)): S.append({'fn': 'C_GetTokenInfo', 'slot': slot}); M.append(None)      # time without any session, so that another thread's close really is the last one
+                scripts.append(S); metas.append(M); continue
+              for sk in range(rnd.randrange(1, 3) if free else 1):
+                sid = f'{hno}:{t}:{sk}'; S.append({'fn': 'C_OpenSession', 'slot': slot}); M.append(('open', sid)); sref = '$%d.h' % (len(S) - 1); mine = {}
+                for _ in range(rnd.randrange(2, 5) if free else rnd.randrange(4, 8)):
                     c = rnd.random()
+                    if free and c >= 0.7: c = 0.7 + (c - 0.7) * 1.0 if rnd.random() < 0.4 else rnd.choice([0.85, 0.95])   # more login / info in the free variant
                     if c < 0.3:
                         lab = rnd.choice(labels)
                         if lab in mine or any(m is not None and m[0] == 'create' and lab == m[1] for mm in metas for m in mm): c = 0.5   # a label is created at most once per history (unique tags)
                         else:
-                            priv = rnd.random() < 0.5; S.append({'fn': 'C_CreateObject', 's': sref, 'tmpl': x.T({'CKA_CLASS': ck.CKO_DATA, 'CKA_TOKEN': False, 'CKA_PRIVATE': priv, 'CKA_LABEL': lab, 'CKA_VALUE': b'x'})}); M.append(('create', lab, priv, f'{hno}:{t}')); mine[lab] = len(S) - 1; continue
+                            priv = rnd.random() < 0.5; S.append({'fn': 'C_CreateObject', 's': sref, 'tmpl': x.T({'CKA_CLASS': ck.CKO_DATA, 'CKA_TOKEN': False, 'CKA_PRIVATE': priv, 'CKA_LABEL': lab, 'CKA_VALUE': b'x'})}); M.append(('create', lab, priv, sid)); mine[lab] = len(S) - 1; continue
                     if c < 0.6:
                         lab = rnd.choice(labels); S.append({'fn': 'C_FindObjectsInit', 's': sref, 'tmpl': x.T({'CKA_LABEL': lab})}); M.append(None)
                         S.append({'fn': 'C_FindObjects', 's': sref, 'max': 4}); M.append(('find', lab)); S.append({'fn': 'C_FindObjectsFinal', 's': sref}); M.append(None)
@@ -307,10 +326,12 @@ def lin_job(job):
                     elif c < 0.8: S.append({'fn': 'C_Logout', 's': sref}); M.append(('logout',))
                     elif c < 0.9: S.append({'fn': 'C_Login', 's': sref, 'user': 1, 'pin': USER.hex()}); M.append(('login',))
                     else: S.append({'fn': 'C_GetSessionInfo', 's': sref}); M.append(('info',))
-                S.append({'fn': 'C_CloseSession', 's': sref}); M.append(('close', f'{hno}:{t}'))
-                scripts.append(S); metas.append(M)
+                S.append({'fn': 'C_CloseSession', 's': sref}); M.append(('close', sid))
+              scripts.append(S); metas.append(M)
             # known initial state: user logged in, only the setup session, no session objects
-            x.call('C_Logout', s=s0); assert x.call('C_Login', s=s0, user=1, pin=USER.hex())['rv'] == 0
+            if free:
+                if s0 is not None: x.call('C_CloseSession', s=s0); s0 = None      # no session is held by the driver: the last close of a thread logs the token out
+            else: x.call('C_Logout', s=s0); assert x.call('C_Login', s=s0, user=1, pin=USER.hex())['rv'] == 0
             r = x.raw({'fn': 'threads', 'scripts': scripts, 'timeout': 300})
             hist = []
             for t in range(nth):
@@ -326,13 +347,13 @@ def lin_job(job):
                         pos = [q for q, hh in enumerate(H) if hh[0] is m][0]; H[pos] = (m, res_t[idx], res_t[idx - 1]['t_call'], res_t[idx]['t_ret'])
                         if res_t[idx - 1]['rv'] != 0: H[pos] = (m, dict(res_t[idx], rv=res_t[idx - 1]['rv']), res_t[idx - 1]['t_call'], res_t[idx]['t_ret'])
                 hist.append(H)
-            init = ('U', frozenset(['setup']), frozenset())
+            init = (None, frozenset(), frozenset()) if free else ('U', frozenset(['setup']), frozenset())
             verdict = linearizable(hist, init)
             nops = sum(len(h) for h in hist)
             if verdict is None: part.inconc(f'linearizability search budget exceeded (seed {seed} history {hno})')
             elif verdict is False:
                 cu = culprit(hist, init, ck)
-                wit = {'seed': seed, 'history': [[(m, {'rv': ck.rv(st['rv']), 'n': st.get('n'), 'state': st.get('state')}, a, b) for (m, st, a, b) in h] for h in hist]}
+                wit = {'seed': seed, 'variant': job.get('variant'), 'history': [[(m, {'rv': ck.rv(st['rv']), 'n': st.get('n'), 'state': st.get('state')}, a, b) for (m, st, a, b) in h] for h in hist]}
                 if not cu: part.inconc(f'a non-linearizable history could not be attributed to one or two calls (seed {seed} history {hno})'); part.observe('non-linearizable history with more than two unexplained calls', wit, cap=2)
                 for c in cu: part.violation(f'non-linearizable|session-objects+login|unexplained-call={c[0]}:{c[1]}', 'no sequential order of the calls explains the observed results; ignoring the response of the named call makes the history linearizable', wit)
             part.case(('lin', nth, tuple(sorted(collections.Counter(m[0] for h in hist for (m, _, _, _) in h).items()))), nontrivial=verdict is not None, sample={'lin_history_ops': nops, 'threads': nth, 'verdict': verdict} if hno == 0 and seed % 7 == 0 else None)
@@ -354,16 +375,17 @@ def run(ctx):
     try: base = set(json.load(open(f'{VERIF}/vlib/race_baseline.json'))['keys'])
     except FileNotFoundError: base = set()
     jobs = []; common = dict(paths=ctx.paths, hdr=ctx.paths['asan']['hdr'], scratch=ctx.scratch, race_baseline=base)
-    seeds = ctx.q(2, 12); tcounts = ctx.q([8], [2, 4, 8, 16])
+    seeds = ctx.q(4, 12); tcounts = ctx.q([8], [2, 4, 8, 16])
     for wl in WORKLOADS:
         for nth in tcounts:
             for i in range(seeds):
                 locking = 'cb' if i % 2 == 0 else 'os'
-                jobs.append(dict(common, kind='stress', cfg='asan', wl=wl, threads=nth, seed=ctx.seed * 1000 + i, iters=ctx.q(25, 40), locking=locking))
+                jobs.append(dict(common, kind='stress', cfg='asan', wl=wl, threads=nth, seed=ctx.seed * 1000 + i, iters=ctx.q(25, 40), locking=locking, yield_p=[0.2, 0.03][(i // 2) % 2], yield_us=[120, 8000][(i // 2) % 2]))
         for i in range(ctx.q(1, 6)):
             jobs.append(dict(common, kind='stress', cfg='tsan', wl=wl, threads=ctx.q(6, 8), seed=ctx.seed * 1000 + 500 + i, iters=ctx.q(8, 12), locking='cb' if i % 2 == 0 else 'os'))
-    for i in range(ctx.q(12, 64)):
-        jobs.append(dict(common, kind='lin', threads=3 + (i % 2), seed=ctx.seed * 1000 + 900 + i, histories=ctx.q(20, 300), locking='cb' if i % 2 == 0 else 'os'))
+    for i in range(ctx.q(16, 64)):
+        jobs.append(dict(common, kind='lin', threads=3 + (i % 2), seed=ctx.seed * 1000 + 900 + i, histories=ctx.q(25, 300), locking='cb' if i % 2 == 0 else 'os', variant=['held', 'held', 'free', 'handoff'][i % 4], yield_p=[0.2, 0.5][(i // 4) % 2], yield_us=[120, 1500][(i // 4) % 2]))
+        if jobs[-1]['variant'] == 'handoff': jobs[-1].update(locking='cb', yield_p=0.04, yield_us=12000, histories=jobs[-1]['histories'] * 3)   # rare but long stalls at lock boundaries (one thread parked while the others run at full speed): finds atomicity windows a few instructions wide
     for part in pmap(dispatch, jobs, max(4, ctx.nproc // 2)): ctx.merge(part)
     lh = ctx.obs.get('lock-order hashes', {}); ctx.extra['distinct_lock_order_hashes'] = len(lh.get('examples', []))
     ctx.rule = ('one evaluation = one concurrent run (2-16 threads x 25-40 iterations of the workload mix) or one linearizability-checked history (3-4 threads x 5-9 calls); '
